@@ -25,6 +25,9 @@ pub enum Outcome {
     DirectFail,
     /// command with slashes of the given total length (cannot exist beyond PATH_MAX / NAME_MAX)
     DirectLong(u16),
+    /// an executable text file without an interpreter line (the kernel says ENOEXEC):
+    /// named directly (false) or found through PATH (true)
+    TextFile(bool),
 }
 
 #[derive(Clone, Debug, Serialize, Deserialize)]
@@ -56,7 +59,7 @@ pub fn check_case(ctx: &Ctx, case: &AllocCase, rep: &mut CaseReport) -> CaseResu
     // a real file name is at most 255 bytes; longer names can only fail (ENAMETOOLONG)
     let name = "c".repeat(case.name_len.max(1) as usize);
     let runnable_name = case.name_len <= 255;
-    let direct = matches!(case.outcome, Outcome::DirectSuccess | Outcome::DirectFail | Outcome::DirectLong(_));
+    let direct = matches!(case.outcome, Outcome::DirectSuccess | Outcome::DirectFail | Outcome::DirectLong(_) | Outcome::TextFile(false));
     if runnable_name {
         link_vchild(&bindir, OsStr::new(&name));
         set_mode(&bindir, "report", &[&prefix.to_string_lossy(), "0", ""]);
@@ -84,6 +87,16 @@ pub fn check_case(ctx: &Ctx, case: &AllocCase, rep: &mut CaseReport) -> CaseResu
             entries.push(bindir.clone().into_os_string());
         }
         Outcome::DirectSuccess if runnable_name => will_succeed = true,
+        Outcome::TextFile(via_path) if runnable_name => {
+            // replace the helper link by a text file
+            let f = bindir.join(&name);
+            let _ = std::fs::remove_file(&f);
+            std::fs::write(&f, b"echo not a program image\n").unwrap();
+            chmod(&f, 0o755);
+            if via_path {
+                entries.push(bindir.clone().into_os_string());
+            }
+        }
         _ => {}
     }
     let mut pv: Vec<u8> = vec![];
@@ -113,7 +126,7 @@ pub fn check_case(ctx: &Ctx, case: &AllocCase, rep: &mut CaseReport) -> CaseResu
         cwd = Some(p.into_os_string());
     }
     let command: OsString = if direct {
-        if case.outcome == Outcome::DirectSuccess {
+        if matches!(case.outcome, Outcome::DirectSuccess | Outcome::TextFile(false)) {
             bindir.join(&name).into_os_string()
         } else if let Outcome::DirectLong(l) = case.outcome {
             let mut s = String::from("/nonexistent-dir");
@@ -187,7 +200,7 @@ pub fn check_case(ctx: &Ctx, case: &AllocCase, rep: &mut CaseReport) -> CaseResu
     let big_len = matches!(case.outcome, Outcome::DirectLong(_)) || case.name_len >= 384 || case.cwd_len >= 384 || case.path_lens.iter().any(|l| *l >= 384) || case.arg_len >= 384;
     if big_path || !ok || big_len {
         let dim = if case.cwd_len >= 384 { "cwd" } else if case.path_lens.iter().any(|l| *l >= 384) { "path" } else if case.name_len >= 384 { "name" } else if case.nargs > 100 || case.nenv.unwrap_or(0) > 100 { "argv/env" } else { "none" };
-        rep.nontrivial(format!("large:{}|exe{}|cands{}|outcome:{}|ok{}|faulthit{}", dim, match case.argv0_len { None => "=argv0", Some(n) if n < case.name_len => ">argv0", Some(_) => "<=argv0" }, if big_path { ">=2" } else { "<2" }, match case.outcome { Outcome::SuccessAt(_) => "success", Outcome::FailEverywhere => "fail-all", Outcome::ChildFault(k, _) => ["f-chdir", "f-dup2", "f-setuid", "f-setgid", "f-setpgid", "f-exec"][k as usize % 6], Outcome::DirectSuccess => "direct-ok", Outcome::DirectFail => "direct-fail", Outcome::DirectLong(l) => if l >= 4096 { "direct-long>=PATH_MAX" } else { "direct-long" } }, ok as u8, fault_hit as u8));
+        rep.nontrivial(format!("large:{}|exe{}|cands{}|outcome:{}|ok{}|faulthit{}", dim, match case.argv0_len { None => "=argv0", Some(n) if n < case.name_len => ">argv0", Some(_) => "<=argv0" }, if big_path { ">=2" } else { "<2" }, match case.outcome { Outcome::SuccessAt(_) => "success", Outcome::FailEverywhere => "fail-all", Outcome::ChildFault(k, _) => ["f-chdir", "f-dup2", "f-setuid", "f-setgid", "f-setpgid", "f-exec"][k as usize % 6], Outcome::DirectSuccess => "direct-ok", Outcome::DirectFail => "direct-fail", Outcome::DirectLong(l) => if l >= 4096 { "direct-long>=PATH_MAX" } else { "direct-long" }, Outcome::TextFile(true) => "text-file-on-path", Outcome::TextFile(false) => "text-file-direct" }, ok as u8, fault_hit as u8));
     }
     let _ = (exec_failed, will_succeed);
     if allocs > 0 {
@@ -203,10 +216,11 @@ pub fn case_strategy() -> impl Strategy<Value = AllocCase> {
     let outcome = prop_oneof![
         4 => any::<u8>().prop_map(Outcome::SuccessAt),
         3 => Just(Outcome::FailEverywhere),
-        3 => (0u8..6, prop::sample::select(vec![libc::EPERM, libc::EACCES, libc::ENOENT, libc::EIO, libc::ENOMEM, libc::EINVAL])).prop_map(|(k, e)| Outcome::ChildFault(k, e)),
+        3 => (0u8..6, prop::sample::select(vec![libc::EPERM, libc::EACCES, libc::ENOENT, libc::EIO, libc::ENOMEM, libc::EINVAL, libc::ENOEXEC, libc::ETXTBSY, libc::E2BIG, libc::ENOTDIR, libc::ELOOP, libc::ENAMETOOLONG, libc::EAGAIN, 524])).prop_map(|(k, e)| Outcome::ChildFault(k, e)),
         1 => Just(Outcome::DirectSuccess),
         1 => Just(Outcome::DirectFail),
         2 => prop_oneof![Just(4095u16), Just(4096u16), Just(4097u16), 300u16..8000].prop_map(Outcome::DirectLong),
+        1 => any::<bool>().prop_map(Outcome::TextFile),
     ];
     (
         prop_oneof![6 => 1u16..40, 2 => 40u16..256, 1 => 256u16..4000],
